@@ -365,6 +365,8 @@ impl BytecodeBuilder {
         &&& self.registers.wf()
         &&& sm_wf(self.source_map@, self.code@.len() as int)
         &&& self.pool_wf()
+        // index 65535 (ConstantIndex::MAX) is reserved as the "no name" sentinel of ApplyClassDecorator
+        &&& self.constants@.len() <= 65535
     }
 
     // constant de-duplication: every remembered index points at the constant it was remembered for
